@@ -83,8 +83,9 @@ pub fn all() -> Vec<PropDef> {
         scens: vec![
             Scen { name: "table", f: d1stream::c18_table, quick: 1, thorough: 1, exhaustive: true },
             s("histories", c18h, 120_000, 4_000_000),
+            s("async_selection", d2::c09, 45_000, 1_500_000),
         ],
-        rule: "table: all 3 roles x every current selection x every requested selection (27 rows) decided exhaustively in one run; histories: seeded record sequences with every stream type in compliant and non-compliant order, set_stream at arbitrary moments incl. early advance, re-selection and every rejected selection, delivered bytes compared with M-stream; distinct = distinct (skeleton, digest)",
+        rule: "table: all 3 roles x every current selection x every requested selection (27 rows) decided exhaustively in one run; histories: seeded record sequences with every stream type in compliant and non-compliant order, set_stream at arbitrary moments incl. early advance, re-selection and every rejected selection, delivered bytes compared with M-stream; async_selection: the C09 connection scenario, whose handler advances streams through the async Request (set_stream, writeable()), probes every rejected async selection under catch_unwind and compares what each stream delivers with M-stream; distinct = distinct (skeleton, digest)",
         assumptions: vec!["only input-stream record types are requested (requesting a non-stream type trips a debug assertion and is outside the statement)"],
         real: REAL_SYNC.to_vec(), stub: STUB_SYNC.to_vec(),
     });
